@@ -28,4 +28,16 @@ Definition active_rank1_scalar (P : aparams (T:=T)) (psucc sigma p_succ : T) : T
   (psucc', omul Op sigma (oexp Op (omul Op (odiv Op (c1 Op) (ap_d P))
                                         (odiv Op (osub Op psucc' (ap_ptarg P)) (osub Op (c1 Op) (ap_ptarg P)))))).
 
+(* the success frequency StrategyActiveOnePlusLambda.update hands to _rank1update (None: no valid individual, no call) *)
+Definition active_p_succ (pfit : option (fitness (T:=T))) (pop : list (aind (T:=T))) : option T :=
+  match sort_desc (fun a b => c_lt Op (ai_fit a) (ai_fit b)) (filter (fun i => f_valid (ai_fit i)) pop) with
+  | [] => None
+  | (_ :: _) as sorted =>
+      let lambda_succ := match pfit with
+                         | Some pf => count_if (fun i => c_le Op pf (ai_fit i)) sorted
+                         | None => length sorted
+                         end in
+      Some (odiv Op (ofnat Op lambda_succ) (ofnat Op (length sorted)))
+  end.
+
 End GenRt.
